@@ -125,7 +125,21 @@ def channel_kind(ctx, site):
                     kinds[T] = ("dispatch", "R")
         ctx._chan_kinds = kinds
     T = (site.fn.get("args") or ["?"])[0]
-    return kinds.get(T, ("unknown:" + T, None))
+    if T in kinds:
+        return kinds[T]
+    # generic helper of a wrapper type (e.g. ChanneledSubscriber<T>::clear_resource): take the
+    # payload type from the concrete trait impls of the same type
+    ia = site.body.j.get("impl_adt")
+    if ia and "::" not in T and "<" not in T:
+        cands = set()
+        for im in ctx.prog.facts.impls:
+            if im.get("self_adt") == ia and "<" in im.get("self_ty", ""):
+                inner = im["self_ty"][im["self_ty"].index("<") + 1:-1]
+                if inner in kinds:
+                    cands.add(inner)
+        if len(cands) == 1:
+            return kinds[next(iter(cands))]
+    return ("unknown:" + T, None)
 
 
 class RoleAnalysis:
